@@ -193,6 +193,25 @@ func runFltExh(c *core.Ctx) {
 	}
 }
 
+// sqliteQueryBuilder: the function of the SQLite package that turns filters
+// into a query (it reads the list fields of a ReqFilter and calls the SQL
+// builder's Select).
+func sqliteQueryBuilder(c *core.Ctx) *ssa.Function {
+	if f := c.P.Sqlite.Func("buildEventQuery"); f != nil {
+		return f
+	}
+	for _, fn := range sqliteFuncs(c) {
+		if fn.Parent() != nil {
+			continue
+		}
+		got := reqFilterFieldsRead([]*ssa.Function{fn})
+		if got["IDs"] && got["Authors"] && got["Kinds"] && got["Tags"] {
+			return fn
+		}
+	}
+	return nil
+}
+
 func runFltNil(c *core.Ctx) {
 	P := c.P
 	type site struct {
@@ -214,20 +233,20 @@ func runFltNil(c *core.Ctx) {
 			sites = append(sites, site{fn, props, filterField})
 		}
 	}
+	// the consumers of a filter, each with the private helpers it delegates to
 	add(P.Root.Func("NewReqFilterMatcher"), "C02")
 	add(P.Method(P.Root, "ReqFilterEventLimitMatcher", "Match"), "C02")
-	add(P.Method(P.Root, "eventCacheEvsIndex", "keysFromReqFilter"), "C03")
-	add(P.Method(P.Root, "eventCacheEvsIndex", "isFullScanReqFilter"), "C03")
-	add(P.Sqlite.Func("buildEventQuery"), "C06")
-	if len(sites) < 5 {
-		c.NoAnchor(nil, "filter consumers (matcher constructor, Match, keysFromReqFilter, isFullScanReqFilter, buildEventQuery)")
+	add(P.Method(P.Root, "eventCacheEvsIndex", "Find"), "C03")
+	add(sqliteQueryBuilder(c), "C06")
+	if len(sites) < 4 {
+		c.NoAnchor(nil, "filter consumers (matcher constructor, Match, index Find, SQL query builder)")
 	}
 	for _, s := range sites {
 		c.CountFuncs(1)
 		nilTests := map[string]int{}
 		lenTests := map[string][]string{}
-		an.Instrs(s.fn, func(in ssa.Instruction) {
-			b, ok := in.(*ssa.BinOp)
+		an.Region(s.fn, nil, func(o an.Occ) {
+			b, ok := o.In.(*ssa.BinOp)
 			if !ok {
 				return
 			}
@@ -237,7 +256,7 @@ func runFltNil(c *core.Ctx) {
 				if side == b.Y {
 					other = b.X
 				}
-				sp := an.PathOf(side)
+				sp := o.Path(side)
 				if f, ok := s.base(sp); ok && an.IsNilConst(other) && (b.Op == token.EQL || b.Op == token.NEQ) {
 					nilTests[f]++
 				}
